@@ -170,6 +170,9 @@ pub fn invalid_variants(rule: &str) -> Vec<(Value, &'static str)> {
                 (obj(&[("identifier", json!("GA")), ("value", json!(1)), ("env", json!(ENV_SET))]), "value and env together"),
                 (obj(&[("identifier", json!("GA")), ("env", json!(ENV_SET)), ("env_json", json!(ENV_JSON))]), "env and env_json together"),
                 (obj(&[("identifier", json!("GA")), ("value", json!(1)), ("default_value", json!(2))]), "value and default_value together"),
+                (obj(&[("identifier", json!("GA")), ("value", json!(1)), ("env_json", json!(ENV_JSON))]), "value and env_json together"),
+                (obj(&[("identifier", json!("GA")), ("env_json", json!(ENV_JSON)), ("value", json!(true))]), "env_json and value together"),
+                (obj(&[("identifier", json!("GA")), ("value", json!(1)), ("env", json!(ENV_SET)), ("env_json", json!(ENV_JSON))]), "value, env and env_json together"),
                 (obj(&[("identifier", json!("GA")), ("env", json!(5))]), "env is not a string"),
                 (obj(&[("identifier", json!("GA")), ("valeu", json!(5))]), "misspelt property"),
                 (obj(&[("identifier", json!("GA")), ("not_a_property", json!(1))]), "unknown property"),
